@@ -26,7 +26,10 @@ Transform(X) == /\ lastFit # <<>> /\ out' = <<start, stop, X>> /\ lastOp' = "tra
                 /\ UNCHANGED <<ustart, ustop, start, stop, lastFit>>
 FitTransform(X) == /\ Learn(X) /\ lastFit' = X /\ out' = <<start', stop', X>> /\ lastOp' = "fit_transform"
                    /\ UNCHANGED <<ustart, ustop>>
-Next == n < MaxLen /\ n' = n + 1 /\ \E X \in Data : Fit(X) \/ Transform(X) \/ FitTransform(X)
+\* scikit-learn's set_params on a parameter other than start / stop (num_steps, flatten, hom_deg to its current value): the learned and the
+\* user-fixed bounds are none of its business -- in particular it must not turn learned bounds into fixed ones
+SetOtherParam == /\ lastOp' = "set_params" /\ UNCHANGED <<ustart, ustop, start, stop, lastFit, out>>
+Next == n < MaxLen /\ n' = n + 1 /\ (SetOtherParam \/ \E X \in Data : Fit(X) \/ Transform(X) \/ FitTransform(X))
 Spec == Init /\ [][Next]_vars
 \* what a fit learns depends only on the most recent fit and on the user-fixed parameters
 Expected(X) == <<IF ustart = None THEN X[1] ELSE ustart, IF ustop = None THEN X[2] ELSE ustop>>
@@ -34,5 +37,6 @@ RefitForgets == lastFit # <<>> => <<start, stop>> = Expected(lastFit)
 \* fit_transform(X) returns what transform(X) returns right after fit(X): both are F(Expected(X), X)
 FitTransformIsFitThenTransform == lastOp = "fit_transform" => out = <<Expected(lastFit)[1], Expected(lastFit)[2], lastFit>>
 TransformUsesLastFit == lastOp = "transform" => (out[1] = Expected(lastFit)[1] /\ out[2] = Expected(lastFit)[2])
+SetParamsKeepsState == [][lastOp' = "set_params" => (start' = start /\ stop' = stop /\ ustart' = ustart /\ ustop' = ustop /\ lastFit' = lastFit)]_vars
 TransformKeepsState == [][lastOp' = "transform" => (start' = start /\ stop' = stop /\ lastFit' = lastFit)]_vars
 =============================================================================
